@@ -15,9 +15,9 @@ GlobalSettingNames == {"ignore_errors", "args_override_self", "dont_delimit_trai
 
 NoInherit == [gs |-> [n \in GlobalSettingNames |-> FALSE], gargs |-> <<>>, version |-> FALSE]
 
-StringVP == [k |-> "string", lo |-> 0, hi |-> 0, pvs |-> <<>>, pv_hide |-> <<>>, pv_help |-> <<>>]
-BoolVP == [k |-> "bool", lo |-> 0, hi |-> 0, pvs |-> <<>>, pv_hide |-> <<>>, pv_help |-> <<>>]
-CountVP == [k |-> "u8", lo |-> 0, hi |-> 255, pvs |-> <<>>, pv_hide |-> <<>>, pv_help |-> <<>>]
+StringVP == [k |-> "string", lo |-> 0, hi |-> 0, pvs |-> <<>>, pv_hide |-> <<>>, pv_help |-> <<>>, pv_aliases |-> <<>>]
+BoolVP == [k |-> "bool", lo |-> 0, hi |-> 0, pvs |-> <<>>, pv_hide |-> <<>>, pv_help |-> <<>>, pv_aliases |-> <<>>]
+CountVP == [k |-> "u8", lo |-> 0, hi |-> 255, pvs |-> <<>>, pv_hide |-> <<>>, pv_help |-> <<>>, pv_aliases |-> <<>>]
 
 \* ---- Arg::_build --------------------------------------------------------
 IsPositionalDef(a) == a.short = <<>> /\ a.long = <<>>
